@@ -66,6 +66,9 @@ func genWrite(r *kit.Rng, k keySpec, at int64, tier string, allowBig bool) *writ
 		w.Size = kit.Pick(r, []int{255, 256, 257, 258, 300, 513, 700, 1025})
 	}
 	w.Reads = planReads(r, w.Size, w.Chunking)
+	if r.Chance(1, 3) {
+		w.Via = "blobber"
+	}
 	switch r.Intn(10) {
 	case 0:
 		w.Quota = int64(w.Size) - 1
@@ -86,6 +89,9 @@ func genWrite(r *kit.Rng, k keySpec, at int64, tier string, allowBig bool) *writ
 	}
 	if w.Quota < -1 {
 		w.Quota = 0
+	}
+	if w.Ending == "err" && r.Bool() {
+		w.ErrKind = "ueof" // what net/http's body returns when the client declared more bytes than it sent
 	}
 	if len(w.Reads) > 0 && r.Chance(1, 4) {
 		w.EndWithData = true
